@@ -33,7 +33,6 @@ structure IWorld where
 def initEnvD (D : Bytes → Option Val) : Gen.Env_llrp_Client_checkInitialMessage where
   World := IWorld
   Header := Nat × Nat                      -- (type, declared payload length)
-  ClientLogger := Unit
   net_Conn := Unit
   io_Reader := Unit
   Map_MessageType_MessageHandler := Unit
@@ -46,9 +45,6 @@ def initEnvD (D : Bytes → Option Val) : Gen.Env_llrp_Client_checkInitialMessag
   Client_readHeader_1 := fun w => match w.first with
     | some f => (w, (f.typ, f.declared), .nil)
     | none => (w, (0, 0), .ext "no header")
-  Client_logger := fun _ => ()
-  Client_ver_1 := fun w => (w, 1)
-  ClientLogger_ReceivedMsg_1 := fun w _ _ _ => w
   get_Header_payloadLen := fun h => (h.2 : Int)
   Client_conn := fun _ => ()
   conv_net_Conn_to_io_Reader := fun _ => ()
